@@ -399,7 +399,7 @@ fn check_tx_validity<C: ContentAddrStore>(
         .get(&(this.height.0.saturating_sub(1).into()))
         .unwrap_or_else(|| this.clone().seal(None).header());
 
-    let mut good_scripts: FxHashSet<Address> = FxHashSet::default();
+    let good_scripts: FxHashSet<Address> = FxHashSet::default();
     for (spend_idx, coin_id) in tx.inputs.iter().enumerate() {
         // Workaround for BUGGY old code!
         // TODO: add some details for this
@@ -414,19 +414,18 @@ fn check_tx_validity<C: ContentAddrStore>(
         match coin_data {
             None => return Err(StateError::NonexistentCoin(*coin_id)),
             Some(coin_data) => {
-                if !good_scripts.contains(&coin_data.coin_data.covhash) {
-                    validate_tx_scripts(
-                        spend_idx,
-                        coin_id,
-                        tx,
-                        coin_data,
-                        last_header,
-                        scripts.clone(),
-                        &good_scripts,
-                    )?;
-
-                    good_scripts.insert(coin_data.coin_data.covhash);
-                }
+                // every input is checked against its covenant in its own environment: a covenant
+                // that approved one input says nothing about another input carrying the same hash,
+                // whose index, value, height or data differ
+                validate_tx_scripts(
+                    spend_idx,
+                    coin_id,
+                    tx,
+                    coin_data,
+                    last_header,
+                    scripts.clone(),
+                    &good_scripts,
+                )?;
 
                 let amount = in_coins.get(&coin_data.coin_data.denom).unwrap_or(&0)
                     + coin_data.coin_data.value.0;
